@@ -1288,6 +1288,200 @@ Section Conf.
                      (ev_choice_r _ _ _ _ _ _ _ _ Hsent He))) as H.
     cbn [pr_mod rule emits] in H. exact H.
   Qed.
+
+  (* ======================================================================================== *)
+  (* sentences and tasks                                                                        *)
+  (* ======================================================================================== *)
+  Definition suffix_of (r s : str) : Prop := exists p, s = p ++ r.
+  Lemma suffix_refl s : suffix_of s s. Proof. now exists []. Qed.
+  Lemma suffix_trans a b c : suffix_of a b -> suffix_of b c -> suffix_of a c.
+  Proof. intros [p ->] [q ->]. exists (q ++ p). now rewrite app_assoc. Qed.
+  Lemma suffix_cons c s : suffix_of s (c :: s). Proof. now exists [c]. Qed.
+  Lemma suffix_dropws s : suffix_of (dropws s) s.
+  Proof. destruct (dropws_split s) as [w [H _]]. now exists w. Qed.
+  Lemma suffix_len r s : suffix_of r s -> (length r <= length s)%nat.
+  Proof. intros [p ->]. rewrite app_length. lia. Qed.
+  Lemma memb_app c a b : memb c (a ++ b) = memb c a || memb c b.
+  Proof. induction a as [|x a IH]; cbn [memb app]; [reflexivity|]. now rewrite IH, orb_assoc. Qed.
+  Lemma suffix_memb c r s : suffix_of r s -> memb c s = false -> memb c r = false.
+  Proof. intros [p ->]. rewrite memb_app. intros H. now apply orb_false_iff in H as [_ H]. Qed.
+  Lemma memb_head c s : memb c s = false -> head_is c s = false.
+  Proof. destruct s as [|x s]; [reflexivity|]. cbn [memb head_is]. intros H. now apply orb_false_iff in H as [H _]. Qed.
+
+  Notation XN := (PSeq (PStr [59]) (PRef (ss "truth_budget_term"))).     (* ";" ~ truth_budget_term *)
+  Notation tbt := (PRef (ss "truth_budget_term")).
+
+  (* ---- totality on arbitrary input (needed to show that `task` FAILS on sentences and terms) ---- *)
+  Lemma tbt_total s :
+    E tbt NonAtomic s PFail \/
+    exists r t, E tbt NonAtomic s (POk r [t]) /\ suffix_of r s /\ (length r < length s)%nat.
+  Proof.
+    destruct (span_spec numc s) as [Hsp [Hds [Hr _]]].
+    set (r := snd (span numc s)) in *. clearbody r.
+    destruct (fst (span numc s)) as [|d ds].
+    - left. cbn [app] in Hsp. subst s. apply ev_tbt_fail. exact Hr.
+    - right. cbn [forallb] in Hds. apply andb_true_iff in Hds as [Hd Hds]. subst s.
+      exists r. eexists. split; [exact (ev_tbt d ds r Hd Hds Hr)|]. split; [now exists (d :: ds)|].
+      cbn [app length]. rewrite app_length. lia.
+  Qed.
+
+  Lemma rep_semis_total : forall n s, (length s <= n)%nat ->
+    exists r, Erep (PStr [59]) NonAtomic s (POk r []) /\ suffix_of r s.
+  Proof.
+    induction n as [|n IH]; intros s Hl.
+    - destruct s; [|cbn [length] in Hl; lia]. exists []. split; [|apply suffix_refl].
+      eapply ev_rep_nil; [apply ev_skip_na | apply ev_lit1_fail; reflexivity].
+    - pose proof (suffix_len _ _ (suffix_dropws s)) as Hdl.
+      destruct (dropws s) as [|c s2] eqn:Hd.
+      + exists s. split; [|apply suffix_refl]. eapply ev_rep_nil; [apply ev_skip_na|]. rewrite Hd. apply ev_lit1_fail. reflexivity.
+      + destruct (N.eqb_spec 59 c) as [<-|Hne].
+        * cbn [length] in Hdl. destruct (IH s2 ltac:(lia)) as [r [Hr Hs]]. exists r. split.
+          -- change (@nil tree) with (@nil tree ++ [] ++ []).
+             eapply ev_rep_cons; [apply ev_skip_na | rewrite Hd; apply ev_lit1_ok | exact Hr].
+          -- eapply suffix_trans; [exact Hs|]. eapply suffix_trans; [apply (suffix_cons 59 s2)|]. rewrite <- Hd. apply suffix_dropws.
+        * exists s. split; [|apply suffix_refl]. eapply ev_rep_nil; [apply ev_skip_na|]. rewrite Hd.
+          apply ev_lit1_fail. cbn [head_is]. now apply N.eqb_neq.
+  Qed.
+
+  Lemma star_semis_total s : exists r, E (PStar (PStr [59])) NonAtomic s (POk r []) /\ suffix_of r s.
+  Proof.
+    destruct s as [|c s2].
+    - exists []. split; [|apply suffix_refl]. apply ev_star_nil, ev_lit1_fail. reflexivity.
+    - destruct (N.eqb_spec 59 c) as [<-|Hne].
+      + destruct (rep_semis_total (length s2) s2 (Nat.le_refl _)) as [r [Hr Hs]]. exists r. split.
+        * change (@nil tree) with (@nil tree ++ []). eapply ev_star_cons; [apply ev_lit1_ok | exact Hr].
+        * eapply suffix_trans; [exact Hs | apply suffix_cons].
+      + exists (c :: s2). split; [|apply suffix_refl]. apply ev_star_nil, ev_lit1_fail. cbn [head_is]. now apply N.eqb_neq.
+  Qed.
+
+  (* one attempt at `";" ~ truth_budget_term`: fails, or succeeds leaving a strictly shorter input *)
+  Lemma XN_total s :
+    E XN NonAtomic s PFail \/
+    exists r t, E XN NonAtomic s (POk r [t]) /\ suffix_of r s /\ (length r < length s)%nat.
+  Proof.
+    destruct s as [|c s2]; [left; apply ev_seq_fail1, ev_lit1_fail; reflexivity|].
+    destruct (N.eqb_spec 59 c) as [<-|Hne].
+    2:{ left. apply ev_seq_fail1, ev_lit1_fail. cbn [head_is]. now apply N.eqb_neq. }
+    pose proof (suffix_len _ _ (suffix_dropws s2)) as Hdl.
+    destruct (tbt_total (dropws s2)) as [Hf|[r [t [Ht [Hs Hlen]]]]].
+    - left. eapply ev_seq_fail2; [apply ev_lit1_ok | apply ev_skip_na | exact Hf].
+    - right. exists r, t. split; [|split].
+      + change [t] with ([] ++ [] ++ [t]). eapply ev_seq_ok; [apply ev_lit1_ok | apply ev_skip_na | exact Ht].
+      + eapply suffix_trans; [exact Hs|]. eapply suffix_trans; [apply suffix_dropws | apply suffix_cons].
+      + cbn [length]. lia.
+  Qed.
+
+  Lemma rep_XN_total : forall n s, (length s <= n)%nat ->
+    exists r kids, Erep XN NonAtomic s (POk r kids) /\ suffix_of r s.
+  Proof.
+    induction n as [|n IH]; intros s Hl.
+    - destruct s; [|cbn [length] in Hl; lia]. exists [], []. split; [|apply suffix_refl].
+      eapply ev_rep_nil; [apply ev_skip_na | apply ev_seq_fail1, ev_lit1_fail; reflexivity].
+    - pose proof (suffix_len _ _ (suffix_dropws s)) as Hdl.
+      destruct (XN_total (dropws s)) as [Hf|[r [t [Ht [Hs Hlen]]]]].
+      + exists s, []. split; [|apply suffix_refl]. eapply ev_rep_nil; [apply ev_skip_na | exact Hf].
+      + destruct (IH r ltac:(lia)) as [r2 [kids [Hr Hs2]]]. exists r2. eexists. split.
+        * eapply ev_rep_cons; [apply ev_skip_na | exact Ht | exact Hr].
+        * eapply suffix_trans; [exact Hs2|]. eapply suffix_trans; [exact Hs | apply suffix_dropws].
+  Qed.
+
+  Lemma star_XN_total s : exists r kids, E (PStar XN) NonAtomic s (POk r kids) /\ suffix_of r s.
+  Proof.
+    destruct (XN_total s) as [Hf|[r [t [Ht [Hs Hlen]]]]].
+    - exists s, []. split; [|apply suffix_refl]. now apply ev_star_nil.
+    - destruct (rep_XN_total (length r) r (Nat.le_refl _)) as [r2 [kids [Hr Hs2]]]. exists r2. eexists. split.
+      + eapply ev_star_cons; [exact Ht | exact Hr].
+      + eapply suffix_trans; [exact Hs2 | exact Hs].
+  Qed.
+
+  Lemma number_list_total s :
+    E number_list NonAtomic s PFail \/ exists r kids, E number_list NonAtomic s (POk r kids) /\ suffix_of r s.
+  Proof.
+    destruct (tbt_total s) as [Hf|[r [t [Ht [Hs _]]]]]; [left; now apply ev_seq_fail1|]. right.
+    destruct (star_XN_total (dropws r)) as [r2 [k2 [H2 Hs2]]].
+    destruct (star_semis_total (dropws r2)) as [r3 [H3 Hs3]].
+    exists r3. eexists. split.
+    - eapply ev_seq_ok; [exact Ht | apply ev_skip_na |].
+      eapply ev_seq_ok; [exact H2 | apply ev_skip_na | exact H3].
+    - eapply suffix_trans; [exact Hs3|]. eapply suffix_trans; [apply suffix_dropws|].
+      eapply suffix_trans; [exact Hs2|]. eapply suffix_trans; [apply suffix_dropws | exact Hs].
+  Qed.
+
+  Lemma budget_content_total s :
+    exists r t, E (PRef (ss "budget_content")) NonAtomic s (POk r [t]) /\ suffix_of r s.
+  Proof.
+    destruct (number_list_total s) as [Hf|[r [kids [Hn Hs]]]].
+    - exists s. eexists. split; [|apply suffix_refl].
+      pose proof (ev_ref ucls G n0 (ss "budget_content") _ NonAtomic s _ eq_refl
+                    (ev_choice_r _ _ _ _ _ _ _ _ Hf (ev_str ucls G n0 [] NonAtomic s))) as H.
+      cbn [pr_mod rule emits starts length drop] in H. exact H.
+    - exists r. eexists. split; [|exact Hs].
+      pose proof (ev_ref ucls G n0 (ss "budget_content") _ NonAtomic s _ eq_refl (ev_choice_l _ _ _ _ _ _ _ _ _ Hn)) as H.
+      cbn [pr_mod rule emits] in H. exact H.
+  Qed.
+
+  (* budget = { "$" ~ budget_content ~ "$" } cannot close when no further `$` follows *)
+  Lemma ev_budget_fail_nodollar s : memb 36 s = false -> E (PRef (ss "budget")) NonAtomic (36 :: s) PFail.
+  Proof.
+    intros Hm. destruct (budget_content_total (dropws s)) as [r [t [Hb Hs]]].
+    refine (ev_ref ucls G n0 (ss "budget") _ NonAtomic (36 :: s) PFail eq_refl _).
+    eapply ev_seq_fail2; [apply ev_lit1_ok | apply ev_skip_na |].
+    eapply ev_seq_fail2; [exact Hb | apply ev_skip_na |].
+    apply ev_lit1_fail, memb_head.
+    eapply suffix_memb; [|exact Hm].
+    eapply suffix_trans; [apply suffix_dropws|]. eapply suffix_trans; [exact Hs | apply suffix_dropws].
+  Qed.
+
+  Definition one_dollar (s : str) : bool := match s with 36 :: s' => negb (memb 36 s') | _ => true end.
+
+  Lemma ev_task_fail s : one_dollar s = true -> E (PRef (ss "task")) NonAtomic s PFail.
+  Proof.
+    intros H. refine (ev_ref ucls G n0 (ss "task") _ NonAtomic s PFail eq_refl _). apply ev_seq_fail1.
+    destruct s as [|c s'].
+    { refine (ev_ref ucls G n0 (ss "budget") _ NonAtomic [] PFail eq_refl _). apply ev_seq_fail1, ev_lit1_fail. reflexivity. }
+    destruct (N.eqb_spec 36 c) as [<-|Hne].
+    - cbn [one_dollar] in H. apply negb_true_iff in H. now apply ev_budget_fail_nodollar.
+    - refine (ev_ref ucls G n0 (ss "budget") _ NonAtomic (c :: s') PFail eq_refl _).
+      apply ev_seq_fail1, ev_lit1_fail. cbn [head_is]. now apply N.eqb_neq.
+  Qed.
+
+  Lemma one_dollar_neq c s : 36 <> c -> one_dollar (c :: s) = true.
+  Proof.
+    intros H. unfold one_dollar. destruct c as [|p]; [reflexivity|].
+    repeat (destruct p as [p|p|]; try reflexivity). exfalso. apply H. reflexivity.
+  Qed.
+
+  (* the text of a well-formed term followed by text without `$` contains at most the leading `$` *)
+  Lemma forallb_atom_no36 n : forallb atom_charb n = true -> memb 36 n = false.
+  Proof.
+    induction n as [|c n IH]; [reflexivity|]. cbn [forallb memb]. intros H. apply andb_true_iff in H as [Hc H].
+    rewrite (IH H), orb_false_r. destruct (N.eqb_spec 36 c) as [<-|]; [|reflexivity].
+    assert (atom_charb 36 = false) by ascii. congruence.
+  Qed.
+
+  Lemma term_text_one_dollar x k : wf x = true -> memb 36 k = false -> one_dollar (F x ++ k) = true.
+  Proof.
+    intros Hw Hk. destruct x as [p n|c ts|l ts r|c s p]; cbn [lterm_wf] in Hw.
+    - apply orb_true_iff in Hw as [H|H].
+      + apply andb_true_iff in H as [Hp Hn]. apply str_eqb_eq in Hp, Hn. subst p n. reflexivity.
+      + apply andb_true_iff in H as [Hp Hn]. destruct (name_shape n Hn) as [c [rest [-> [Hc [_ [_ [_ [_ Hall]]]]]]]].
+        apply orb_true_iff in Hp as [Hp|Hp].
+        * apply str_eqb_eq in Hp. subst p. cbn [lfmt_term app one_dollar].
+          destruct (N.eqb_spec 36 c) as [<-|Hne].
+          -- assert (atom_charb 36 = false) by ascii. congruence.
+          -- now apply one_dollar_neq.
+        * apply str_mem_In in Hp. vm_compute in Hp.
+          destruct Hp as [<-|[<-|[<-|[<-|[<-|[]]]]]]; cbn [lfmt_term app one_dollar]; try reflexivity.
+          apply negb_true_iff. change (c :: rest ++ k) with ((c :: rest) ++ k). rewrite (memb_app 36 (c :: rest) k), Hk, orb_false_r. exact (forallb_atom_no36 _ Hall).
+    - apply andb_true_iff in Hw as [Hw _]. apply andb_true_iff in Hw as [_ Hne].
+      destruct ts as [|t ts]; [discriminate|]. rewrite F_compound. reflexivity.
+    - apply andb_true_iff in Hw as [Hw _]. apply andb_true_iff in Hw as [Hb Hne].
+      destruct ts as [|t ts]; [discriminate|]. rewrite F_set.
+      apply existsb_exists in Hb as [[l' r'] [Hin He]]. unfold pair_eqb in He. cbn [fst snd] in He.
+      apply andb_true_iff in He as [Hl Hr]. apply str_eqb_eq in Hl, Hr. subst l' r'.
+      vm_compute in Hin. destruct Hin as [Hin|[Hin|[]]]; injection Hin as <- <-; reflexivity.
+    - rewrite F_statement. reflexivity.
+  Qed.
 End Conf.
 
 (* ------------------------------------------------------------------------------------------ *)
